@@ -40,6 +40,12 @@ struct Case {
     /// longer than the 64 KiB chunks of the torn-tail scan
     #[serde(default)]
     pre_noise_kb: u16,
+    /// death in the MIDDLE of a cache write: for every pair of neighbouring crash points of one
+    /// operation between which a file under continuity_streams/ grew, one more image is judged: the
+    /// earlier image with that file extended by this fraction (x/256, at least one byte, never
+    /// all) of the bytes the later image added - a write can stop at any byte. `None` = no such images.
+    #[serde(default)]
+    torn_cache: Option<u8>,
 }
 
 fn weights() -> OpWeights {
@@ -69,8 +75,9 @@ fn case_strategy() -> BoxedStrategy<Case> {
         noise_strategy(),
         boundary_strategy(),
         prop_oneof![7 => Just(0u16), 1 => 66u16..90],
+        proptest::option::weighted(0.6, any::<u8>()),
     )
-        .prop_map(|(ops, cont, params, surface_stride, noise_kb, noise_boundary, pre_noise_kb)| Case { ops, cont, params, surface_stride, noise_kb, noise_boundary, pre_noise_kb })
+        .prop_map(|(ops, cont, params, surface_stride, noise_kb, noise_boundary, pre_noise_kb, torn_cache)| Case { ops, cont, params, surface_stride, noise_kb, noise_boundary, pre_noise_kb, torn_cache })
         .boxed()
 }
 
@@ -155,6 +162,8 @@ struct Snap {
     ctx: String,
     /// index of this point within its op (0 = first point of the op)
     nth_in_op: usize,
+    /// image of a death in the middle of a cache write (built after the run, see `torn_images`)
+    torn: bool,
 }
 
 struct Recorder {
@@ -272,6 +281,51 @@ fn surface_compare(it: &Interp, p: &Params, point: &str, stage: &str, rep: &mut 
     }
 }
 
+/// Images of a death in the middle of a cache write, derived from neighbouring hook-point images
+/// of one operation: the earlier image plus a strict, non-empty prefix of what the later image
+/// added to ONE file of the cache directory.
+fn torn_images(snaps: &[Snap], frac: u8, root: &std::path::Path) -> Vec<Snap> {
+    let mut out = Vec::new();
+    for w in snaps.windows(2) {
+        let (a, b) = (&w[0], &w[1]);
+        if a.op != b.op || !b.point.starts_with("cache.") || out.len() >= 60 {
+            continue;
+        }
+        let (da, db) = (a.dir.join("data").join("continuity_streams"), b.dir.join("data").join("continuity_streams"));
+        let Ok(rd) = std::fs::read_dir(&db) else { continue };
+        let mut names: Vec<std::ffi::OsString> = rd.flatten().filter(|e| e.path().is_file()).map(|e| e.file_name()).collect();
+        names.sort();
+        for name in names {
+            let after = std::fs::read(db.join(&name)).unwrap_or_default();
+            let before = std::fs::read(da.join(&name)).unwrap_or_default();
+            if after.len() < before.len() + 2 || !after.starts_with(&before) {
+                continue;
+            }
+            let delta = after.len() - before.len();
+            let take = (1 + (frac as usize * (delta - 1)) / 256).min(delta - 1);
+            let dir = root.join(format!("t{}", out.len()));
+            if copy_dir(&a.dir, &dir).is_err() {
+                continue;
+            }
+            let streams = dir.join("data").join("continuity_streams");
+            let _ = std::fs::create_dir_all(&streams);
+            if std::fs::write(streams.join(&name), &after[..before.len() + take]).is_err() {
+                continue;
+            }
+            out.push(Snap {
+                dir,
+                op: b.op,
+                point: format!("torn.{}", b.point),
+                ctx: format!("{} +{take}/{delta} bytes of {}", b.ctx, name.to_string_lossy()),
+                nth_in_op: b.nth_in_op,
+                torn: true,
+            });
+            break;
+        }
+    }
+    out
+}
+
 fn run(case: &Case, _known: &KnownFindings) -> CaseReport {
     let mut rep = CaseReport::new();
     rv::fuel::install();
@@ -306,7 +360,7 @@ fn run(case: &Case, _known: &KnownFindings) -> CaseReport {
             } else {
                 let _ = std::fs::create_dir_all(dir.join("rip"));
             }
-            let snap = Snap { dir, op: r.cur_op, point: point.to_string(), ctx: ctx.to_string(), nth_in_op: r.nth_in_op };
+            let snap = Snap { dir, op: r.cur_op, point: point.to_string(), ctx: ctx.to_string(), nth_in_op: r.nth_in_op, torn: false };
             r.nth_in_op += 1;
             r.snaps.push(snap);
         })));
@@ -334,9 +388,15 @@ fn run(case: &Case, _known: &KnownFindings) -> CaseReport {
     }
     rec.lock().unwrap().enabled = false;
     rv::sched::set_thread_handler(None);
-    let snaps = rec.lock().unwrap().snaps.clone();
+    let mut snaps = rec.lock().unwrap().snaps.clone();
     rep.count("crash_points", snaps.len() as u64);
-    let points_per_op: BTreeMap<usize, usize> = snaps.iter().fold(BTreeMap::new(), |mut m, s| {
+    if let Some(frac) = case.torn_cache {
+        let torn = torn_images(&snaps, frac, snaproot.path());
+        rep.count("torn_cache_write_images", torn.len() as u64);
+        rep.class_if(!torn.is_empty(), "death_in_the_middle_of_a_cache_write");
+        snaps.extend(torn);
+    }
+    let points_per_op: BTreeMap<usize, usize> = snaps.iter().filter(|s| !s.torn).fold(BTreeMap::new(), |mut m, s| {
         *m.entry(s.op).or_default() += 1;
         m
     });
@@ -347,7 +407,7 @@ fn run(case: &Case, _known: &KnownFindings) -> CaseReport {
     for (si, snap) in snaps.iter().enumerate() {
         seen_points.insert(snap.point.clone());
         let last_in_op = snap.nth_in_op + 1 == *points_per_op.get(&snap.op).unwrap_or(&0);
-        if snap.nth_in_op > 0 && !last_in_op {
+        if snap.nth_in_op > 0 && !last_in_op && !snap.torn {
             inside += 1;
         }
         let point = snap.point.as_str();
@@ -405,7 +465,9 @@ fn run(case: &Case, _known: &KnownFindings) -> CaseReport {
         // 4. artifacts referenced by frames present in the image resolve
         check_artifacts(&rit.sandbox, &values, point, &mut rep);
         // 5. C04 on the recovered store (before any further append)
-        let do_surface = si % (case.surface_stride.max(1) as usize) == 0;
+        // torn images: truth, numbering, acknowledged appends and continuation are judged; reads
+        // answered from the half-written cache belong to the listed stale-cache family (C04's subject)
+        let do_surface = si % (case.surface_stride.max(1) as usize) == 0 && !snap.torn;
         if do_surface {
             surface_compare(&rit, &case.params, point, "recovered", &mut rep);
         }
